@@ -223,6 +223,13 @@ func (c07) Gen(tier string, seed int64, emit0 func([]Ev)) {
 	for rep := 0; rep < reps; rep++ {
 		for n := 0; n <= 42; n++ { // 42 entries is the single-packet limit (1 + 12 + 4n <= 184)
 			p := randPAT(r, n)
+			if n >= 2 && (n+rep)%4 == 0 {
+				// a table whose last bytes are 0xFF (the last PID, the last program_number) and whose CRC_32 is all ones, all
+				// zeros or ends like stuffing or a sync byte: section bytes, not stuffing
+				if q, ok := ffTailPAT(r, n); ok {
+					p = q
+				}
+			}
 			sec := patSection(p)
 			pay := append([]byte{0}, sec...)
 			// payload carrier: exactly the section, or followed by stuffing (never 188 bytes long)
